@@ -198,13 +198,13 @@ PROPERTIES = {
         "verus_units": ["leaves"],
         "kani": ["display::display_default", "display::display_precision", "display::display_plus", "display::display_lower_hex", "display::display_binary", "display::display_width_precision", "display::display_lower_hex_u16"],
         "kani_thorough": ["display::display_sign", "display::display_zero_pad", "display::display_width", "display::display_width_precision_left", "display::display_width_precision_zero", "display::display_upper_hex",
-                          "display::display_octal", "display::display_alt_hex", "display::display_octal_u16", {"harness": "display::display_default_u16", "timeout": 3000}],
+                          "display::display_octal", "display::display_alt_hex", "display::display_octal_u16", {"harness": "display::display_default_u16", "timeout": 3000}, "display::display_lower_hex_u32"],
         "explanation": "BOUNDED: the real fmt_dec / fmt_radix2 (run-time frac_nbits through the hook new-types) on every 8-bit value and all nine "
                        "layouts: `{}` is the correct rounding at the digits shown and lies within half an ulp (round trip); `{:.p}` for p <= 9 is the "
                        "exactly rounded expansion; sign / + / zero padding / width only add prefix and padding; "
                        "radix 2, 8, 16 outputs are exact; and on every 16-bit value and all 17 layouts (the per-width code of impl_radix_helper! that the 8-bit "
                        "instance never runs: u16 delegates to the u8 helper when fewer than 8 bits are in use): `{:x}` exact (quick), `{:o}` exact and `{}` "
-                       "well formed and within half an ulp, i.e. round-trip safe (thorough).  Verus: the width-specific leaves Mul10 x5 and ceil_log10_2_times for all inputs",
+                       "well formed and within half an ulp, i.e. round-trip safe (thorough); `{:x}` of every 32-bit value x all 33 layouts (thorough).  Verus: the width-specific leaves Mul10 x5 and ceil_log10_2_times for all inputs",
         "bounded_parts": ["8-bit layouts (all formats and flags) and 16-bit layouts (`{:x}`, `{:o}`, `{}`) only; precision <= 9; width <= 12; one flag at a time; "
                           "core::str::from_utf8 stubbed by its unchecked variant; the formatter of the 32..128-bit types is covered by the leaf proofs only"],
     },
@@ -213,7 +213,7 @@ PROPERTIES = {
         "verus_units": ["transc", "log2inner", "fracops", "nofrac", "trig"],
         "kani": ["transc::const_values", "transc::exp_i9f23", "transc::sin_i9f23", "transc::cos_i9f23", "transc::cos_i32f32"],
         "kani_thorough": ["transc::sqrt_i9f23", "transc::log2_i9f23", "transc::ln_i9f23", "transc::sqrt_u9f23", "transc::tan_i9f23",
-                          "transc::sin_i32f32", "transc::sin_i64f64", "transc::exp_i32f32"],
+                          "transc::sin_i32f32", "transc::sin_i64f64", "transc::exp_i32f32", "transc::tan_i32f32"],
         "explanation": "sqrt (Newton-loop invariant), exp, pow, powi, ln, log2 (unit transc) and sin, cos, cordic_rotation (unit trig: exact range reduction, folding into "
                        "[-pi/2, pi/2], cos for |x| <= 200; CORDIC with the invariant max(|x|, |y|) <= cbound(i) < 8 and |z| <= 2 + i, R18) verified (Verus) as written, generic over every supported type, against trait-level "
                        "contracts of Fixed: no panic-class obligation remains, Err for non-positive logarithms; the conventions 0^y, x^0, x^1 of "
@@ -221,7 +221,7 @@ PROPERTIES = {
                        "with invariants (integer-part loop: x < 2^(w-1-count) + 1; fraction loop: 1 <= x <= 2, accumulator below (count+1) 2^i), no "
                        "panic-class obligation left, result >= 0 — the contract log2 / ln / pow rely on.  tan (its divisor 1 + cos 2x is non-zero only by an accuracy argument) by "
                        "Kani on I9F23 (the stated domain); Kani re-checks sin / cos / sqrt / log2 / ln / exp bit-precisely on I9F23 and sin / cos / exp on I32F32 / I64F64",
-        "not_covered": ["tan for types other than I9F23"],
+        "not_covered": ["tan for types other than I9F23 (quick) and I32F32 (thorough)"],
         "assumptions": ["trait-level contracts of the generic Fixed / FixedSigned: the METHOD contracts are copied at render time from contracts/fixed_trait.inc, the text that unit "
                         "traitfwd@<family> proves for each family's `impl Fixed` forwarder; the OPERATOR axioms (ax_shr, ax_shl, ax_and_lsb, ax_mul_assign, trig's ax_ops with +=/-=, ax_bits, ax_neg) "
                         "are proved per family, from the operator contracts, as implementations of link traits whose statements are copied from the generic trait "
@@ -271,7 +271,7 @@ PROPERTIES = {
         "kani": ["transc::const_values", "transc::exp_i9f23", "transc::sin_i9f23", "transc::cos_i9f23", "transc::cos_i32f32",
                  {"harness": "transc::sin_ticks_i9f23_whole_domain", "unwind_is_violation": True}],
         "kani_thorough": ["transc::sqrt_i9f23", "transc::log2_i9f23", "transc::ln_i9f23", "transc::sqrt_u9f23", "transc::tan_i9f23",
-                          "transc::sin_i32f32", "transc::sin_i64f64", "transc::exp_i32f32",
+                          "transc::sin_i32f32", "transc::sin_i64f64", "transc::exp_i32f32", "transc::tan_i32f32",
                           {"harness": "transc::sin_ticks_i32f32_whole_domain", "unwind_is_violation": True}],
         "explanation": "Verus (generic over every supported type): sqrt, exp and sin carry a ghost iteration counter (R14) that every loop body "
                        "increments; each loop has an invariant bounding it (for-loops: in step with the loop variable; the two range-reduction "
